@@ -137,6 +137,14 @@ class TarHelper:
                         raise BuildError("invalid hard link in archive: '{}' -> '{}'"
                                             .format(f.name, f.linkname))
                     f.linkname = f.linkname[8:]
+                    # The link target must stay inside the workspace too.
+                    # Otherwise a later member could overwrite a file outside
+                    # of it through the hard link.
+                    root = os.path.realpath(content)
+                    target = os.path.realpath(os.path.join(root, f.linkname))
+                    if os.path.commonpath([target, root]) != root:
+                        raise BuildError("invalid hard link in archive: '{}' -> '{}'"
+                                            .format(f.name, f.linkname))
                 f.name = f.name[8:]
                 try:
                     tar.extract(f, content)
